@@ -14,6 +14,10 @@ THEOREMS = [
     "Spowtd.stepOf_none_iff",
     "Spowtd.load_refuses_missing_et",
     "Spowtd.load_ok_conditions",
+    "Spowtd.days_civil_roundtrip",
+    "Spowtd.civil_days_roundtrip",
+    "Spowtd.civilFromDays_valid",
+    "Spowtd.epoch_day_zero",
 ]
 TRUSTED_BASE = [
     "Lean 4.33 kernel; axioms propext, Classical.choice, Quot.sound only (audited per theorem on every run)",
